@@ -124,6 +124,14 @@ def units():
                   "kind": "proof(every value read from the file unconstrained; loops over format strings unwound completely)",
                   "trusted": ["E1 model of psf_binheader_readf driven by the format string (destinations checked for the field / block size, filled with unconstrained bytes)",
                               "file length / position answers unconstrained"]})
+    # (bext / cart chunk parsers: the same harness applies, but a symbolic-size fill of the 16 KiB structures does not finish: not registered)
+    for nm, fn, argt, extra in (("peak.ch2", "wavlike_read_peak_chunk", "size_t", ["-DCHANNELS=2"]), ("peak.ch3", "wavlike_read_peak_chunk", "size_t", ["-DCHANNELS=3"])):
+        U.append({"name": "parser.wavlike." + nm, "props": ["C03"], "harness": "parser.harness.c", "entry": "h_parser", "dfcc": False,
+                  "function": "wavlike.c:" + fn, "defines": ["-DPARSER_FILE=\"wavlike.c\"", "-DREAD_FN=wrap_chunk_parser", "-DWRAP_FN=" + fn, "-DWRAP_ARG_T=" + argt, "-DLINKS_COMMON"] + extra,
+                  "link_sources": ["common.c", "broadcast.c", "cart.c"], "pre_gi_flags": ["--remove-function-body", "psf_log_printf"],
+                  "cbmc_flags": ["--object-bits", "9", "--unwind", "12", "--unwindset", "strlen.0:520,memcmp.0:20"], "timeout": 600, "drop_flags": ["--signed-overflow-check"],
+                  "kind": "proof(chunk size and every value read from the file unconstrained)" + ("; channels enumerated" if extra else ""),
+                  "trusted": ["E1 model of psf_binheader_readf driven by the format string (destinations checked for the field / block size)"]})
     # chunk-loop parsers: bounded stand-in (the file ends after N header reads; loops unwound completely under that bound)
     for cname, fn, budget, extra in (("svx", "svx_read_header", 10, []), ("voc", "voc_read_header", 10, []), ("aiff", "aiff_read_header_h", 14, ["-DAIFF_WRAPPER", "-DLINKS_COMMON"]))[:(3 if os.environ.get("VERIF_WIP_AIFF") else 2)]:
         U.append({"link_sources": (["common.c", "chunk.c", "strings.c", "float32.c", "double64.c"] if cname == "aiff" else []),
